@@ -292,19 +292,29 @@ theorem runTail_err {s s' : St} (hs : step s .runTail = some s') {c : Cause}
   · cases hs; exact ⟨rfl, rfl⟩
   · cases hs
 
-/-- the ignore-signals flag is fixed by the configuration -/
-theorem inv_ignoreSignals {c : Config} {s : St} (hr : Reachable c s) :
-    s.ignoreSignals = c.ignoreSignals := by
-  refine reachable_induct (fun s => s.ignoreSignals = c.ignoreSignals) rfl ?_ hr
+/-- the configuration the start-up steps read is the one the program was started with -/
+theorem inv_config {c : Config} {s : St} (hr : Reachable c s) :
+    s.ignoreSignals = c.ignoreSignals ∧ s.withSignalHandler = c.withSignalHandler ∧
+    s.withResize = c.withResize ∧ s.withInitCmd = c.withInitCmd ∧ s.withInput = c.withInput ∧
+    s.cancelable = c.cancelable := by
+  refine reachable_induct (fun s => s.ignoreSignals = c.ignoreSignals ∧
+    s.withSignalHandler = c.withSignalHandler ∧ s.withResize = c.withResize ∧
+    s.withInitCmd = c.withInitCmd ∧ s.withInput = c.withInput ∧ s.cancelable = c.cancelable)
+    ⟨rfl, rfl, rfl, rfl, rfl, rfl⟩ ?_ hr
   intro s s' l _ ih hs
   step_cases hs l
   all_goals exact ih
 
+/-- the ignore-signals flag is fixed by the configuration -/
+theorem inv_ignoreSignals {c : Config} {s : St} (hr : Reachable c s) :
+    s.ignoreSignals = c.ignoreSignals := (inv_config hr).1
+
 /-- without a signal handler there is never a handler goroutine -/
 theorem inv_no_handler {c : Config} (hc : c.withSignalHandler = false) {s : St}
     (hr : Reachable c s) : s.sig = .absent := by
-  refine reachable_induct (fun s => s.sig = .absent) (by simp [init, hc]) ?_ hr
-  intro s s' l _ ih hs
+  refine reachable_induct (fun s => s.sig = .absent) (by simp [init0]) ?_ hr
+  intro s s' l hrs ih hs
+  have hw : s.withSignalHandler = false := by rw [(inv_config hrs).2.1, hc]
   step_cases hs l
   all_goals first
     | exact ih
@@ -318,29 +328,40 @@ theorem inv_ignored_not_sending {c : Config} (hc : c.ignoreSignals = true) {s : 
     refine reachable_induct (fun s => s.ignoreSignals = true ∧ ∀ b, s.sig ≠ .sending b) ?_ ?_ hr
     · refine ⟨hc, ?_⟩
       intro b
-      simp only [init]
-      split <;> simp
+      simp [init0]
     · intro s s' l _ ih hs
       step_cases hs l
       all_goals first
         | exact ih
         | (simp_all; done)
+        | (refine ⟨ih.1, fun b => ?_⟩; split <;> simp_all)
   exact (key hr).2
 
 /-- the terminal has been restored at least once when Run's shutdown is done, hence when Run
-has returned -/
+has returned from it - every return but the one after a failed `initTerminal`, which comes before
+anything was written (`startTermFails`: the loop has not begun, no shutdown) -/
 theorem inv_restored {c : Config} {s : St} (hr : Reachable c s) :
-    (s.runPc = .tail → s.runSh = .done → 1 ≤ s.restores) ∧ (s.runPc = .returned → 1 ≤ s.restores) := by
-  refine reachable_induct
-    (fun s => (s.runPc = .tail → s.runSh = .done → 1 ≤ s.restores) ∧
-      (s.runPc = .returned → 1 ≤ s.restores)) (by simp [init]) ?_ hr
-  intro s s' l _ ih hs
-  obtain ⟨h1, h2⟩ := ih
-  step_cases hs l
-  all_goals first
-    | exact ⟨h1, h2⟩
-    | (constructor <;> simp_all <;> omega)
-    | (constructor <;> simp_all; done)
+    (s.runPc = .tail → s.runSh = .done → 1 ≤ s.restores) ∧
+    (s.runPc = .returned → s.el ≠ .notStarted → 1 ≤ s.restores) := by
+  have key : (s.runPc = .tail → s.runSh = .done → 1 ≤ s.restores) ∧
+      (s.runPc = .returned → s.runSh = .done → 1 ≤ s.restores) := by
+    refine reachable_induct
+      (fun s => (s.runPc = .tail → s.runSh = .done → 1 ≤ s.restores) ∧
+        (s.runPc = .returned → s.runSh = .done → 1 ≤ s.restores)) (by simp [init0]) ?_ hr
+    intro s s' l hrs ih hs
+    have S := (inv_start hrs).starting
+    obtain ⟨h1, h2⟩ := ih
+    step_cases hs l
+    all_goals first
+      | exact ⟨h1, h2⟩
+      | (constructor <;> simp_all <;> omega)
+      | (constructor <;> simp_all; done)
+      | (have := S _ (by assumption); constructor <;> simp_all; done)
+      | (have := S _ (And.left (by assumption)); constructor <;> simp_all; done)
+  refine ⟨key.1, fun hret hel => ?_⟩
+  rcases (inv_start hr).returned hret with h | h
+  · exact key.2 hret h
+  · exact absurd h.1 hel
 
 end Tea.Runtime.Life
 
